@@ -19,7 +19,9 @@ boundary and hostile values × streams with missing pieces.
 """
 from __future__ import annotations
 
+import contextlib
 import datetime
+import io
 import signal
 import time
 import traceback
@@ -34,6 +36,7 @@ NOW = "2024-03-05T10:20:30Z"
 TIME_LIMIT = 20.0           # seconds per request (the slowest legitimate request takes < 2 s)
 
 _WORLD = None
+_DEVNULL = io.StringIO()
 _LAST_EXC: list = []
 
 
@@ -379,7 +382,8 @@ def run(client, method: str, url: str, headers: dict | None = None, limit: float
     signal.setitimer(signal.ITIMER_REAL, limit)
     t0 = time.perf_counter()
     try:
-        r = client.open(url, method=method, headers=headers or {})
+        with contextlib.redirect_stdout(_DEVNULL):      # EventFactory print()s unknown event names
+            r = client.open(url, method=method, headers=headers or {})
         status = r.status_code
         r.close()
         to = False
